@@ -194,9 +194,10 @@ where
         let r = catch_unwind(AssertUnwindSafe(|| -> Result<(), DI::Error> {
             match op {
                 Op::Sp(x, y, col) => d.set_pixel(x, y, col),
-                Op::Sps(a, b, e, f, cols) => d.set_pixels(a, b, e, f, cols),
+                // `filter` hides the exact size hint, as a lazily computed colour stream would
+                Op::Sps(a, b, e, f, cols) => d.set_pixels(a, b, e, f, cols.into_iter().filter(|_| true)),
                 Op::Di(px) => d.draw_iter(px),
-                Op::Fc(r, cols) => d.fill_contiguous(&r, cols),
+                Op::Fc(r, cols) => d.fill_contiguous(&r, cols.into_iter().filter(|_| true)),
                 Op::Fcg(r, n) => d.fill_contiguous(&r, (0..n).map(|k| M::ColorFormat::from_rawz(k & 0xFFFF))),
                 Op::Fcm(r, n, m) => d.fill_contiguous(&r, (0..n).map(|k| M::ColorFormat::from_rawz(k % m))),
                 Op::Fs(r, col) => d.fill_solid(&r, col),
